@@ -1075,6 +1075,8 @@ def run(ck):
         c14_2f(ck, prog)
         c14_2g(ck, prog)
         c14_9(ck, prog)
+        from rules.C12 import c12_9
+        c12_9(ck, prog, 'C14.10')
         c14_7(ck, prog)
         from rules.C12 import c12_6
         c12_6(ck, prog, rid='C14.8')
